@@ -242,6 +242,11 @@ pub struct KnownFinding {
     pub what: String,
 }
 
+/// output root for evidence/ and replays/ (default /verif; background soak runs set WPSIM_OUT)
+pub fn out_root() -> String {
+    std::env::var("WPSIM_OUT").unwrap_or_else(|_| "/verif".to_string())
+}
+
 pub fn load_known_findings() -> Vec<KnownFinding> {
     let Ok(s) = std::fs::read_to_string("/verif/known_findings.json") else {
         return Vec::new();
@@ -389,10 +394,10 @@ pub fn run_batch(spec: &CheckSpec, thorough: bool, base_seed: u64, runs_override
         if v.class.starts_with("twin_") {
             // whole-run check: the replay file names the seed and the event bound; replay re-derives the runs
             let bound = v.event_idx + 1;
-            let path = format!("/verif/replays/{}-{}.json", spec.id, seed);
+            let path = format!("{}/replays/{}-{}.json", out_root(), spec.id, seed);
             let doc = json!({"property": spec.id, "seed": seed, "profile": profile.name(), "thorough": thorough, "mode": "extra", "max_events": bound,
                 "violation": {"property": v.property, "class": v.class, "detail": v.detail, "event_idx": v.event_idx}, "events": []});
-            let _ = std::fs::create_dir_all("/verif/replays");
+            let _ = std::fs::create_dir_all(format!("{}/replays", out_root()));
             let _ = std::fs::write(&path, serde_json::to_string_pretty(&doc).unwrap());
             println!("VIOLATION property={} replay={}", spec.id, path);
             println!("  seed={} class={} (run truncated to {} events): {}", seed, v.class, bound, v.detail);
@@ -407,7 +412,7 @@ pub fn run_batch(spec: &CheckSpec, thorough: bool, base_seed: u64, runs_override
             Some(x) => (min, x.clone()),
             None => (r.history.clone(), v.clone()),
         };
-        let path = format!("/verif/replays/{}-{}.json", spec.id, seed);
+        let path = format!("{}/replays/{}-{}.json", out_root(), spec.id, seed);
         write_replay(&path, spec.id, *seed, profile, thorough, &events, &viol, r.history.len());
         println!("VIOLATION property={} replay={}", spec.id, path);
         println!("  seed={} class={} events={} (from {}): {}", seed, viol.class, events.len(), r.history.len(), viol.detail);
@@ -455,8 +460,8 @@ pub fn run_batch(spec: &CheckSpec, thorough: bool, base_seed: u64, runs_override
         "wall_s": wall,
         "violations": n_viol,
     });
-    let _ = std::fs::create_dir_all("/verif/evidence");
-    let path = format!("/verif/evidence/{}.json", spec.id);
+    let _ = std::fs::create_dir_all(format!("{}/evidence", out_root()));
+    let path = format!("{}/evidence/{}.json", out_root(), spec.id);
     if std::fs::write(&path, serde_json::to_string_pretty(&evidence).unwrap()).is_err() {
         eprintln!("HARNESS ERROR: cannot write {}", path);
         return 2;
